@@ -82,6 +82,7 @@ bool check(const expr& f, const std::string& label) {
 bool check_all(const std::vector<std::pair<expr, std::string> >& obs) { bool all = true; for (auto& o : obs) all = check(o.first, o.second) && all; return all; }
 void reach(const std::string&) {}
 void fresh_obligations(bool) {}
+void obligation_solver(int) {}
 void require(bool ok, const std::string& label) { ++g_checks; if (!ok) reproduced(label, ""); }
 void note(const std::string& k) { if (getenv("CONRT_NOTES")) std::cout << "NOTE " << k << "\n"; }
 void fact(const std::string& k, const std::string& v) { std::cout << "FACT " << k << "=" << v << "\n"; }
